@@ -1,0 +1,30 @@
+// Copyright ©2024 The bíogo Authors. All rights reserved.
+// Use of this source code is governed by a BSD-style
+// license that can be found in the LICENSE file.
+
+//go:build verif
+
+package cram
+
+import "io"
+
+// VerifITF8 reads one ITF-8 number from r the way the container readers do.
+func VerifITF8(r io.Reader) (int32, error) {
+	er := errorReader{r: r}
+	v := er.itf8()
+	return v, er.err
+}
+
+// VerifLTF8 reads one LTF-8 number from r the way the container readers do.
+func VerifLTF8(r io.Reader) (int64, error) {
+	er := errorReader{r: r}
+	v := er.ltf8()
+	return v, er.err
+}
+
+// VerifITF8Slice reads an ITF-8 array from r the way the container readers do.
+func VerifITF8Slice(r io.Reader) ([]int32, error) {
+	er := errorReader{r: r}
+	v := er.itf8slice()
+	return v, er.err
+}
